@@ -708,6 +708,90 @@ func subjects() []*subject {
 		{"WithKey", false, false, func(o interface{}) interface{} { return o.(*rgsw.Evaluator).WithKey(f.evk) }},
 	}})
 
+	// rgsw.Encryptor: an RGSW encryption of X by the copy must act like one by the original (external product, noise class)
+	out = append(out, &subject{name: "rgsw.Encryptor", orig: rgsw.NewEncryptor(p, f.sk), ops: []op{
+		{"Encrypt X, external product, noise class", func(o interface{}) (string, error) {
+			g := rgsw.NewCiphertext(p, p.MaxLevelQ(), p.MaxLevelP(), 0)
+			gpt := rlwe.NewPlaintext(p, p.MaxLevel())
+			for i := 0; i <= p.MaxLevel(); i++ {
+				gpt.Value.Coeffs[i][1] = 1
+			}
+			p.RingQ().NTT(gpt.Value, gpt.Value)
+			gpt.IsNTT = true
+			if err := o.(*rgsw.Encryptor).Encrypt(gpt, g); err != nil {
+				return "", err
+			}
+			// m * X for a fixed m, decrypted: the error class of (m*X)_dec - m*X
+			m := rlwe.NewPlaintext(p, p.MaxLevel())
+			rq := p.RingQ()
+			for i := 0; i <= p.MaxLevel(); i++ {
+				for j := 0; j < 8; j++ {
+					m.Value.Coeffs[i][j] = uint64(j+1) << 20
+				}
+			}
+			want := rq.NewPoly()
+			rq.MultByMonomial(m.Value, 1, want)
+			rq.NTT(m.Value, m.Value)
+			m.IsNTT = true
+			ct, err := rlwe.NewEncryptor(p, f.sk).WithPRNG(keyedPRNG()).EncryptNew(m)
+			if err != nil {
+				return "", err
+			}
+			res := rlwe.NewCiphertext(p, 1, p.MaxLevel())
+			rgsw.NewEvaluator(p, nil).ExternalProduct(ct, g, res)
+			d := rlwe.NewDecryptor(p, f.sk).DecryptNew(res)
+			e := rq.NewPoly()
+			rq.INTT(d.Value, e)
+			rq.Sub(e, want, e)
+			return fmt.Sprint("noise<=", noiseClass(rq, e)), nil
+		}},
+	}, copies: []copyKind{
+		{"ShallowCopy", true, false, func(o interface{}) interface{} { return o.(*rgsw.Encryptor).ShallowCopy() }},
+	}})
+
+	// rlwe.RingPackingEvaluator: Split / Merge and Extract / Repack are deterministic given the keys
+	{
+		rp, err := rlwe.NewParametersFromLiteral(rlwe.ParametersLiteral{LogN: 6, LogQ: []int{60}, LogP: []int{60}, NTTFlag: true})
+		tr.Must(err)
+		rsk := rlwe.NewKeyGenerator(rp).GenSecretKeyNew()
+		lq, lp := rp.MaxLevelQ(), rp.MaxLevelP()
+		ekp := rlwe.EvaluationKeyParameters{LevelQ: &lq, LevelP: &lp}
+		rpk := &rlwe.RingPackingEvaluationKey{}
+		ski, err := rpk.GenRingSwitchingKeys(rp, rsk, 4, ekp)
+		tr.Must(err)
+		rpk.GenRepackEvaluationKeys(rpk.Parameters[4], ski[4], ekp)
+		rpk.GenRepackEvaluationKeys(rpk.Parameters[6], ski[6], ekp)
+		rpk.GenExtractEvaluationKeys(rpk.Parameters[4], ski[4], ekp)
+		out = append(out, &subject{name: "rlwe.RingPackingEvaluator", orig: rlwe.NewRingPackingEvaluator(rpk), ops: []op{
+			{"Split then Merge", func(o interface{}) (string, error) {
+				ev := o.(*rlwe.RingPackingEvaluator)
+				a, b, err := ev.SplitNew(detCt(rp, 1, rp.MaxLevel(), 41))
+				if err != nil {
+					return "", err
+				}
+				c, err := ev.MergeNew(a, b)
+				if err != nil {
+					return "", err
+				}
+				return dg(a, b, c), nil
+			}},
+			{"Extract then Repack", func(o interface{}) (string, error) {
+				ev := o.(*rlwe.RingPackingEvaluator)
+				m, err := ev.Extract(detCt(rp, 1, rp.MaxLevel(), 42), map[int]bool{0: true, 3: true, 5: true})
+				if err != nil {
+					return "", err
+				}
+				c, err := ev.Repack(m)
+				if err != nil {
+					return "", err
+				}
+				return dg(c), nil
+			}},
+		}, copies: []copyKind{
+			{"ShallowCopy", true, false, func(o interface{}) interface{} { return o.(*rlwe.RingPackingEvaluator).ShallowCopy() }},
+		}})
+	}
+
 	// bootstrapping.Evaluator: residual ring of half the degree (ring switching, packing of sparse ciphertexts)
 	{
 		res, err := ckks.NewParametersFromLiteral(ckks.ParametersLiteral{LogN: 9, LogNthRoot: 11, LogQ: []int{60, 40}, LogP: []int{61}, LogDefaultScale: 40})
